@@ -116,12 +116,17 @@ pub enum Op {
     ResetOutcome(Option<OutcomeSpec>),
     ClearOutcome,
     SetAuto(u8),
-    Fork,
+    /// 0: continue on `clone()`; 1: continue on a chain that was built from another start and then
+    /// overwritten with `clone_from`. The original is kept alive and compared later.
+    Fork(u8),
+    /// A mutation of a kept original (index, kind): 0 pop, 1 push a legal move (chosen by the
+    /// second number), 2 toggle its stored outcome. Two live objects that both keep changing.
+    ParkedStep(u8, u8, u8),
     /// Re-creates the (still empty) chain through another constructor: 0 `new`, 1 `from_fen`
     /// of the harness's FEN text, 2 `from_uci_list(b, "")`, 3 `new_initial()`, 4 `default()`
     /// (3 and 4 only when the start is the initial position)
     Construct(u8),
-    /// variant = v % 10, index seed = v / 10
+    /// variant = v % 11, index seed = v / 11
     EqTwin(u16),
     RebuildMoves,
     RebuildUci,
@@ -525,7 +530,8 @@ impl Op {
             Op::ResetOutcome(None) => "reset_outcome none".into(),
             Op::ClearOutcome => "clear_outcome".into(),
             Op::SetAuto(f) => format!("set_auto_outcome {}", f),
-            Op::Fork => "fork".into(),
+            Op::Fork(k) => format!("fork {}", k),
+            Op::ParkedStep(i, k, x) => format!("parked_step {} {} {}", i, k, x),
             Op::Construct(k) => format!("construct {}", k),
             Op::EqTwin(v) => format!("eq_twin {}", v),
             Op::RebuildMoves => "rebuild_moves".into(),
@@ -576,7 +582,8 @@ impl Op {
             }
             "clear_outcome" => Op::ClearOutcome,
             "set_auto_outcome" => Op::SetAuto(t.get(1)?.parse().ok()?),
-            "fork" => Op::Fork,
+            "fork" => Op::Fork(t.get(1).and_then(|x| x.parse().ok()).unwrap_or(0)),
+            "parked_step" => Op::ParkedStep(t.get(1)?.parse().ok()?, t.get(2)?.parse().ok()?, t.get(3)?.parse().ok()?),
             "construct" => Op::Construct(t.get(1)?.parse().ok()?),
             "eq_twin" => Op::EqTwin(t.get(1)?.parse().ok()?),
             "rebuild_moves" => Op::RebuildMoves,
